@@ -598,6 +598,174 @@ class ApiEpisodes(Batch):
 
 
 # ---------------------------------------------------------------------------
+# C03, program clause through the real assembler: one text, data cache off versus on
+
+
+def gen_onoff(seed):
+    r = R.stream(seed, "config")
+    dc = gen_cache(r, True, p_enable=1.0)
+    dc["enable"] = True
+    settings = {"isa": "riscv", "decoy": False, "hz": True, "dc": dc, "ic": gen_cache(r, False, p_enable=0.25),
+                "mode": r.choice(["single_stage_pipeline", "five_stage_pipeline"])}
+    r = R.stream(seed, "ops")
+    text = gen_text(r, "riscv", p_bad=0.05)
+    return {"mode": "onoff", "settings": settings, "ops": [["load", text]], "cap": r.choice([300, 1500])}
+
+
+class _CrossingSpy:
+    """Does the run *without* the cache perform an access that crosses a word boundary? (Instance-level wrappers
+    around the flat memory's access functions; such a program is outside the transparency clause and must be
+    rejected when the cache is on.)"""
+
+    def __init__(self, mem):
+        self.crossed = False
+        for name, width in (("read_byte", 1), ("read_halfword", 2), ("read_word", 4),
+                            ("write_byte", 1), ("write_halfword", 2), ("write_word", 4)):
+            orig = getattr(mem, name, None)
+            if orig is None:
+                continue
+
+            def wrapped(address, *a, _orig=orig, _w=width, **kw):
+                try:
+                    if (int(address) & 3) + _w > 4:
+                        self.crossed = True
+                except Exception:  # noqa: BLE001
+                    pass
+                return _orig(address, *a, **kw)
+
+            setattr(mem, name, wrapped)
+
+
+def run_onoff(trace, prop):
+    from architecture_simulator.gui import webgui
+    from .subject import Settings
+
+    install_clock()
+    CLOCK.reset()
+    res = Result()
+    hs = Hasher()
+    st = copy.deepcopy(trace["settings"])
+    text = trace["ops"][0][1] if trace["ops"] else ""
+    mode = st["mode"]
+    off_settings = copy.deepcopy(st)
+    off_settings["dc"]["enable"] = False
+    sims = {}
+    try:
+        for name, s_ in (("off", off_settings), ("on", st)):
+            S = Settings(s_)
+            sims[name] = webgui.get_riscv_simulation(mode, True, S.cache_options("dc"), S.cache_options("ic"))
+    except Exception as e:  # noqa: BLE001
+        return _construction_failed(trace, prop, SutConstructionError(f"{type(e).__name__}: {e}"))
+    spy = None
+    try:
+        spy = _CrossingSpy(sims["off"].state.memory)
+    except Exception:  # noqa: BLE001
+        pass
+    out = {}
+    for name, sim in sims.items():
+        try:
+            sim.load_program(text)
+            out[name] = ["loaded"]
+        except Exception as e:  # noqa: BLE001
+            out[name] = ["load-error", R.errname(e), getattr(e, "line_number", None)]
+    hs.add("load", out["off"], out["on"])
+    if out["off"] != out["on"]:
+        res.violate("C03", "load-differs-with-cache", expected=out["off"], got=out["on"], settings=st["dc"])
+    if out["off"][0] != "loaded" or res.violations:
+        res.probes["text does not load (nothing to compare)"] += 1
+        res.digest = hs.hexdigest()
+        return res
+    cap = trace.get("cap", 1500)
+    steps = {}
+    for name, sim in sims.items():
+        k = 0
+        err = None
+        try:
+            # the cached run gets a generous cap: termination is compared, not the number of calls
+            while not sim.is_done() and k < (cap if name == "off" else 4 * cap):
+                sim.step()
+                k += 1
+            done = bool(sim.is_done())
+        except Exception as e:  # noqa: BLE001
+            err = [R.errname(e), getattr(e, "address", None)]
+            done = None
+        steps[name] = k
+        out[name] = {"error": err, "done": done}
+        res.sim["steps"] += k
+    hs.add("run", out["off"], out["on"], steps)
+    res.nontrivial = steps["off"] >= 3
+    res.sim["calls"] += 2
+    a, b = out["off"], out["on"]
+    if spy is not None and spy.crossed:
+        res.probes["text performs a word-crossing access (cache on: must be rejected)"] += 1
+        res.faults["F-access:word-crossing (program)"] += 1
+        if b["error"] is None and a["error"] is None and a["done"]:
+            res.violate("C03", "crossing-access-not-rejected", expected="an error with the cache on", got=b, settings=st["dc"])
+        res.digest = hs.hexdigest()
+        return res
+    if a["done"] is False:
+        res.probes["text does not terminate within the step cap (nothing to compare)"] += 1
+        res.digest = hs.hexdigest()
+        return res
+    if (a["error"] is None) != (b["error"] is None):
+        res.violate("C03", "fault-differs-with-cache", expected=a, got=b, settings=st["dc"])
+    elif a["error"] is not None:
+        res.faults["F-instr (run-time fault in the text)"] += 1
+        if None not in (a["error"][1], b["error"][1]) and a["error"][1] != b["error"][1]:
+            res.violate("C03", "fault-differs-with-cache", expected=a, got=b, settings=st["dc"])
+    elif b["done"] is not True:
+        res.violate("C03", "termination-differs-with-cache", expected=a, got=b, steps=steps, settings=st["dc"])
+    if not res.violations:
+        for what in ("get_register_entries", "get_output", "get_exit_code"):
+            va = call_insp(sims["off"], "riscv", mode, what)
+            vb = call_insp(sims["on"], "riscv", mode, what)
+            hs.add(what, va)
+            if va != vb:
+                res.violate("C03", "result-differs-with-cache", what=what, expected=va, got=vb, settings=st["dc"], mode=mode)
+                break
+        else:
+            res.probes["assembled text: same registers, output and exit code with the data cache on"
+                       + (" (run-time fault)" if a["error"] else "")] += 1
+            if ".data" in text:
+                res.probes["assembled text with an initialised data segment compared with and without the cache"] += 1
+    res.states.add(hash((mode, st["dc"]["kind"], st["dc"]["ways"], st["dc"]["bb"], a["error"] is None)))
+    res.digest = hs.hexdigest()
+    return res
+
+
+class CacheOnOffTexts(Batch):
+    engine = "lifesim"
+    per_run_timeout_s = 60.0
+
+    def __init__(self, name, runs_quick, runs_thorough):
+        self.name = name
+        self.runs_quick = runs_quick
+        self.runs_thorough = runs_thorough
+
+    def generate(self, seed):
+        return gen_onoff(seed)
+
+    def execute(self, trace, prop):
+        return run_onoff(trace, prop)
+
+    def shrink(self, trace, prop, still_fails, budget: Budget):
+        cur = _shrink_texts(trace, still_fails, budget, "ops")
+        for key, val in (("ib", 0), ("bb", 0), ("ways", 1), ("pen", 0), ("strat", "lru")):
+            if budget.spent():
+                break
+            if cur["settings"]["dc"].get(key) != val:
+                cand = copy.deepcopy(cur)
+                cand["settings"]["dc"][key] = val
+                budget.tick()
+                if still_fails(cand):
+                    cur = cand
+        return cur
+
+    def describe(self, trace):
+        return {"settings": trace["settings"], "text": trace["ops"][0][1][:600] if trace["ops"] else ""}
+
+
+# ---------------------------------------------------------------------------
 # shared shrinking / description helpers
 
 
